@@ -3,6 +3,20 @@ F = 'src/alpha/value_type.rs'
 IMPL = 'impl<I> ValueType<I> where I: Identifier'
 
 
+def r25_deref_box_eq(u, key, text):
+    """R25: `a == b` on two pattern-bound `&Box<Self>` (only in can_be_declared_as) -> `**a == **b`.  By the std impls
+    `&A == &B` is `*A == *B` and `Box<T> == Box<T>` is `*T == *T`; Verus constrains the derived `==` of the pointee but gives
+    an unconstrained result for `==` on references to boxes in `let`/arm position (tool gap, reproduced in isolation)."""
+    if not key.endswith(':: fn can_be_declared_as'):
+        return text
+    import re
+    n = len(re.findall(r'=> a == b,', text))
+    if n:
+        u.rules['R25'] += n
+        text = text.replace('=> a == b,', '=> **a == **b,')
+    return text
+
+
 def build(u):
     u.features.append('allocator_api')
     u.include('prelude/std_box_option.rs')
@@ -14,5 +28,5 @@ def build(u):
     # derived Clone on a recursive type: Verus reports a spurious cycle -> trusted identity clone (DESIGN 2.2 item 1)
     u.emit(F, 'enum ValueType', derive_drop=['Clone'])
     u.emit(F, 'enum OperandValueType', derive_drop=['Clone'])
-    u.emit(F, IMPL)
+    u.emit(F, IMPL, rules=[r25_deref_box_eq])
     u.include('spec/u_vt_spec.rs', kind='spec')
